@@ -932,14 +932,16 @@ def objbad_leaf(draw):
   size = int(np.prod(shape, dtype=np.int64))
   items = draw(st.lists(HEX_ITEMS, min_size=size, max_size=size))
   nbad = draw(st.integers(1, max(1, min(2, size))))
+  # two thirds of the time element 0 stays bytes (the class a first-element-only
+  # type check lets through)
+  lo = 1 if size >= 2 and draw(st.sampled_from([True, True, False])) else 0
   for _ in range(nbad):
-    pos = draw(st.integers(0, size - 1))
+    pos = draw(st.integers(lo, size - 1))
     items[pos] = draw(BAD_ELEM)
-  spec = {'t': 'objbad', 'shape': shape, 'items': items,
-          'layout': draw(st.sampled_from(LAYOUTS))}
-  if spec['layout'] == 'broadcast':
-    spec['baxis'] = 1   # keep axis 0, the planted element stays reachable
-  return spec
+  # no broadcast layout here: it would replicate one element and could drop
+  # the planted non-bytes one
+  return {'t': 'objbad', 'shape': shape, 'items': items,
+          'layout': draw(st.sampled_from(LAYOUTS[:4]))}
 
 
 STRUCT_FIELDS = ['int8', 'int16', 'int32', 'int64', 'uint8', 'float32',
@@ -1031,7 +1033,7 @@ def state_leaf():
          'int64', 'uint32', 'uint8', 'bool', 'complex64']
   return st.one_of(
       arr_leaf(shapes=small, dtypes=num), arr_leaf(shapes=small),
-      jaxarr_leaf(), jaxarr_leaf(), objarr_leaf(), npscalar_leaf(), PY_LEAF)
+      arr_leaf(shapes=small), jaxarr_leaf(), jaxarr_leaf(), objarr_leaf(), npscalar_leaf(), PY_LEAF)
 
 
 def _node(t, n):
@@ -1154,15 +1156,12 @@ def leaf_labels(n):
 
 
 def tree_labels(tree):
+  """(labels, nesting depth); depth 0 = a bare leaf, 1 = a flat container."""
   ls = set()
   depth = 0
   for n in walk(tree):
     ls.update(leaf_labels(n))
-    if n['t'] not in ('dict', 'list', 'tuple') and n['t'] not in DATACLASSES and (
-        n['t'] not in NAMEDTUPLES):
-      depth = max(depth, n['_depth'])
-    else:
-      depth = max(depth, n['_depth'] + (0 if n.get('items') else 0))
+    depth = max(depth, n['_depth'])
   ls.add(f'depth:{min(depth, 4)}{"+" if depth >= 4 else ""}')
   return ls, depth
 
@@ -1242,27 +1241,27 @@ def state_nontrivial(case, ls):
 CHECKS = [
     Check(name='msgpack_roundtrip', run=run_msgpack, strategy=msgpack_cases,
           labels=msgpack_labels, nontrivial=msgpack_nontrivial,
-          budget={'quick': 24000, 'thorough': 300000}, time_share=3.0,
+          budget={'quick': 12000, 'thorough': 240000}, time_share=3.0,
           doc='msgpack_deserialize(msgpack_serialize(tree)) has the same '
               'containers and, per leaf, the same kind, dtype name, shape and '
               'bit-identical values'),
     Check(name='reject_or_equal', run=run_reject,
           strategy=lambda tier: reject_cases(tier),
           labels=reject_labels, nontrivial=reject_nontrivial,
-          budget={'quick': 12000, 'thorough': 150000}, time_share=1.5,
+          budget={'quick': 6000, 'thorough': 120000}, time_share=2.0,
           doc='trees with a planted unsupported leaf: serialize or deserialize '
               'raises, or the result is equal -- never a different value'),
     Check(name='sqlite_roundtrip', run=run_sqlite,
           strategy=lambda tier: sqlite_cases(tier),
           labels=sqlite_labels, nontrivial=sqlite_nontrivial,
-          budget={'quick': 4000, 'thorough': 50000}, time_share=1.5,
+          budget={'quick': 2400, 'thorough': 40000}, time_share=2.0,
           doc='SQLiteFederatedData over a file written by '
               'SQLiteFederatedDataBuilder: ids, sizes, examples through '
               'clients/get_client/get_clients/shuffled_clients'),
     Check(name='state_roundtrip', run=run_state,
           strategy=lambda tier: state_cases(tier),
           labels=state_labels, nontrivial=state_nontrivial,
-          budget={'quick': 4000, 'thorough': 50000}, time_share=1.5,
+          budget={'quick': 1600, 'thorough': 30000}, time_share=3.0,
           doc='load_state(save_state(x)) and load_latest_checkpoint after '
               'save_checkpoint return the saved pytree (structure + leaves) '
               'and round number'),
